@@ -2,7 +2,7 @@
 # apply every kept seeded change in turn to /repo, run the check of its property (quick tier), restore /repo
 cd /verif
 out=.work/seedreg.log; : > $out
-for d in seeded/*/; do
+for d in ${SEEDS:-/verif/seeded/*/}; do
   id=$(basename $d)
   prop=$(python3 -c "import json;print(json.load(open('$d/meta.json'))['property'])")
   if python3 -c "import json,sys;sys.exit(0 if json.load(open('$d/meta.json')).get('obsolete') else 1)"; then echo "$id ($prop): obsolete, skipped" >> $out; continue; fi
